@@ -227,8 +227,8 @@ def plan(tier):
     if tier == 'thorough':
         specs += [{'kind': 'enum-sample', 'len': 6, 'n': 150000, 'k': i} for i in range(8)]
     k = 2 if tier == 'quick' else 8
-    specs += [{'kind': 'random', 'n': 2500 if tier == 'quick' else 30000, 'k': i} for i in range(k)]
-    specs += [{'kind': 'lowered', 'n': 500 if tier == 'quick' else 8000, 'k': i} for i in range(k)]
+    specs += [{'kind': 'random', 'n': 6000 if tier == 'quick' else 30000, 'k': i} for i in range(k)]
+    specs += [{'kind': 'lowered', 'n': 1500 if tier == 'quick' else 8000, 'k': i} for i in range(k)]
     return specs
 
 
